@@ -161,6 +161,27 @@ pub fn run(args: &Args) {
             pkgs.push((a.rsplit('/').next().unwrap().to_string(), Package::parse(&mut &b[..]).unwrap()));
         }
     }
+    // hand-encoded packages whose main header store does not end with a region trailer: it ends with a string, with a
+    // dribble string, or with bytes no entry refers to (a cut inside such a store removes nothing an entry needs)
+    {
+        use crate::rawhdr::*;
+        let lead = lead_bytes("tail");
+        let sig = encode_wellformed(62, &[]);
+        let payload = b"070701 not really an archive".to_vec();
+        let s_v = |x: &str| json!([x.as_bytes()]);
+        let variants: Vec<(&str, Vec<u8>)> = vec![
+            ("tail:string-last", { let store = b"name\0a-trailing-vendor-string\0"; encode_raw([0x8e, 0xad, 0xe8, 0x01], [0; 4], 2, store.len() as u32, &[[1000, 6, 0, 1], [1011, 6, 5, 1]], store) }),
+            ("tail:slack", { let store = b"name\0\0\0\0\0\0\0\0\0slack!!"; encode_raw([0x8e, 0xad, 0xe8, 0x01], [0; 4], 1, store.len() as u32, &[[1000, 6, 0, 1]], store) }),
+            ("tail:dribble-string", encode_dribble(63, &[(1000, T_STRING, s_v("name")), (1001, T_STRING, s_v("1"))], &[(1011, T_STRING, s_v("a dribble vendor string at the very end"))])),
+            ("tail:strarr-last", { let store = b"name\0one\0two\0three\0"; encode_raw([0x8e, 0xad, 0xe8, 0x01], [0; 4], 2, store.len() as u32, &[[1000, 6, 0, 1], [1118, 8, 5, 3]], store) }),
+        ];
+        for (name, hdr) in variants {
+            let bytes = assemble(&lead, &sig, &hdr, &payload, 0);
+            if let Ok(Ok(p)) = guarded(|| Package::parse(&mut &bytes[..])) {
+                pkgs.push((name.to_string(), p));
+            }
+        }
+    }
     if args.get("families") == Some("hash") {
         pkgs.clear();
     }
